@@ -103,7 +103,7 @@ pub fn reconcile_path(
         // A absent: symmetric.
         (None, Some(bv)) => match base {
             None => Action::PropagateBtoA,
-            Some(z) if bv.blake3 == z.blake3 => Action::DeleteB, // B unchanged, A deleted
+            Some(z) if Fingerprint::same(&bv, &z) => Action::DeleteB,
             Some(_) => Action::Conflict(ConflictKind::DeleteVsModify),
         },
     }
